@@ -41,7 +41,7 @@ MAP = {
     "C02_m3": [("C02", "fwrap.double64.wr_int")], "C02_m4": [("C02", "fconv.float32.f2i_clip")],
     "C08_m3": [("C08", None)], "C08_m4": [("C08", None), ("C05", "wrap.writef_float")],
     "C09_m3": [("C09", "sd2.parse.r80")], "C09_m4": [("C09", "wrap.read_double")],
-    "C10_m3": [("C10", None)], "C10_m4": [("C10", None)],
+    "C10_m3": [("C10", "open_fmt.aiff.pcm_u8")], "C10_m4": [("C10", None)],
     "C13_m3": [("C13", None)], "C13_m4": [("C13", None)],
     "C14_m3": [("C14", None)], "C14_m4": [("C14", "fileio"), ("C19", "fileio")],
     "C17_m3": [("C17", "cmd.SFC_GET_BROADCAST_INFO")], "C17_m4": [("C17", "cmd.SFC_GET_LOG_INFO")],
